@@ -669,6 +669,14 @@ def gen_C12(tier, seed):
                                         "variant": g.rng.choice(["bytes", "withbytes"]),
                                         "repl": hxlist([b"<%d>" % i for i in range(len(pats))]),
                                         "cfgs": cfgs(["auto.d.1.1.u", "tc.d.1.1.b", "tdfa.d.1.1.u", "nc.d.1.1.b"])}))
+    # the empty pattern on the EMPTY haystack (one empty match at offset 0: the replacement appears exactly once) and on
+    # one-byte haystacks, every variant and match kind (systematic: an input no random family may be trusted to produce)
+    for pats in ([b""], [b"", b"a"], [b"a", b""], [b"ab", b"", b"b"]):
+        for hay in (b"", b"a", b"x"):
+            for mk in ("std", "lf", "ll"):
+                for variant in ("bytes", "withbytes", "str", "withstr"):
+                    reqs.append(fmt_req("replace", {"mk": mk, "pats": hxlist(pats), "hay": hx(hay), "variant": variant,
+                                                    "repl": hxlist([b"<%d>" % i for i in range(len(pats))]), "cfgs": cfgs(cf)}))
     # wrong replacement table length: documented panic
     reqs.append(fmt_req("replace", {"mk": "std", "pats": hxlist([b"a", b"b"]), "hay": hx(b"ab"), "variant": "bytes",
                                     "repl": hxlist([b"x"]), "cfgs": cfgs(cf)}))
